@@ -271,7 +271,7 @@ def check(ctx: Ctx):
               f"found in {sorted({f.qualname for f in makers})}")
     vt = repo.func(PT, "_visit_tree")
     t = norm(vt.node)
-    ctx.check("stack = [root]" in t and "yield n" in t and "stack.extend(reversed(n.children))" in t, "R-FOREST", "_visit_tree yields every node reachable through children links", vt, vt.node, "")
+    ctx.check("stack = [root]" in t and "yield n" in t and ("stack.extend(reversed(n.children))" in t or "stack += reversed(n.children)" in t), "R-FOREST", "_visit_tree yields every node reachable through children links", vt, vt.node, "")
     ci = repo.func(PT, "ComputationPseudoTree.__init__")
     ctx.touch(ci)
     ffc = FuncFacts(ci.node)
